@@ -179,6 +179,11 @@ def operations(P, tmp):
         ("group[list]", lambda: (lambda g: g[list(g.keys())[:2]])(pk("group"))), ("group.getby_threshold", lambda: pk("group").getby_threshold("rate", 0.0)),
         ("group.merge", lambda: (lambda g: nap.TsGroup.merge_group(g, nap.TsGroup({99: nap.Ts(np.array([1.0, 2.0]))}, time_support=g.time_support),
                                                                     ignore_metadata=True))(pk("group"))),
+        ("group.merge(reset_index)", lambda: (lambda g: nap.TsGroup.merge_group(g, nap.TsGroup({99: nap.Ts(np.array([1.0, 2.0]))}, time_support=g.time_support),
+                                                                                 reset_index=True, ignore_metadata=True))(pk("group"))),
+        ("group.merge(reset_index,meta)", lambda: (lambda g: nap.TsGroup.merge_group(g, g, reset_index=True, ignore_metadata=False))(pk("group"))),
+        ("group.merge(reset_support)", lambda: (lambda g: g.merge(nap.TsGroup({98: nap.Ts(np.array([1.0, 500.0]))}), reset_time_support=True,
+                                                                   ignore_metadata=True))(pk("group"))),
         ("group.to_tsd", lambda: pk("group").to_tsd()), ("tsd.to_tsgroup", lambda: (lambda x: nap.Tsd(x.t, np.arange(len(x)) % 3, time_support=x.time_support).to_tsgroup())(pk("ts"))),
         ("group.get", lambda: pk("group").get(5.0, 60.0)), ("group.trial_count", lambda: pk("group").trial_count(ep(), 2.0)),
         ("trial_count", lambda: pk("ts").trial_count(ep(), 2.0)), ("to_trial_tensor", lambda: pk("tsd").to_trial_tensor(ep())),
